@@ -142,9 +142,12 @@ ApplyEdit(leaf, e) ==
 (* 4. Locations: where a leaf sits in the one-operation document           *)
 (***************************************************************************)
 ParamLocs == {"query", "header", "path", "formData"}
-BodyLocs  == {"body_prop", "body_ref_prop", "body_ref_ref_prop", "body_ref_items_ref", "body_allof_prop", "body_own_allof", "body_own_allofref", "body_items", "body_nested", "body_root"}
+\* parameters declared at PATH level (shared by the operations of the path) instead of the operation
+PathLevelLocs == {"query_pathlevel", "header_pathlevel"}
+PLoc(loc) == IF loc = "query_pathlevel" THEN "query" ELSE IF loc = "header_pathlevel" THEN "header" ELSE loc
+BodyLocs  == {"body_prop", "body_ref_prop", "body_ref_ref_prop", "body_ref_items_ref", "body_circular", "body_circular_items", "body_allof_prop", "body_own_allof", "body_own_allofref", "body_items", "body_nested", "body_root"}
 RespLocs  == {"resp_prop"}
-Locs      == ParamLocs \cup BodyLocs
+Locs      == ParamLocs \cup PathLevelLocs \cup BodyLocs
 
 BaseAOS == [present |-> TRUE, consumes |-> <<"application/json">>, params |-> <<>>, defs |-> <<>>,
             responses |-> [r200 |-> [description |-> "ok"]]]
@@ -161,7 +164,9 @@ ObjWith(leaf, req) ==
 
 \* Embed(loc, leaf, req, cf): the AOS carrying the leaf at loc; req = the leaf is required there
 Embed(loc, leaf, req, cf) ==
-  CASE loc \in ParamLocs ->
+  CASE loc \in PathLevelLocs ->
+         Put([BaseAOS EXCEPT !.params = <<ParamOf(PLoc(loc), leaf, req, cf)>>], "pathLevel", TRUE)
+    [] loc \in ParamLocs ->
          IF loc = "formData"
            THEN [BaseAOS EXCEPT !.params = <<ParamOf(loc, leaf, req, cf)>>, !.consumes = <<"application/x-www-form-urlencoded">>]
            ELSE [BaseAOS EXCEPT !.params = <<ParamOf(loc, leaf, req, cf)>>]
@@ -177,6 +182,12 @@ Embed(loc, leaf, req, cf) ==
     [] loc = "body_ref_items_ref" ->
          Put([BaseAOS EXCEPT !.defs = [D |-> [type |-> "object", properties |-> [list |-> [type |-> "array", items |-> [ref |-> "E"]]]],
                                        E |-> ObjWith(leaf, req)]], "body", [ref |-> "D"])
+    \* circular definitions: through a plain $ref property, and through the items of an array property
+    [] loc = "body_circular" ->
+         Put([BaseAOS EXCEPT !.defs = [Node |-> Put(ObjWith(leaf, req), "properties", [p |-> leaf, next |-> [ref |-> "Node"]])]], "body", [ref |-> "Node"])
+    [] loc = "body_circular_items" ->
+         Put([BaseAOS EXCEPT !.defs = [Tree |-> Put(ObjWith(leaf, req), "properties",
+                                                  [children |-> [type |-> "array", items |-> [ref |-> "Tree"]], p |-> leaf])]], "body", [ref |-> "Tree"])
     [] loc = "body_allof_prop" ->
          Put([BaseAOS EXCEPT !.defs = [D |-> [type |-> "object", properties |-> [q |-> [type |-> "string"]]]]],
              "body", [allOf |-> <<[ref |-> "D"], ObjWith(leaf, req)>>])
@@ -226,12 +237,14 @@ EmptyBody(loc) ==
     [] loc = "body_items" -> Arr(<<>>)
     [] OTHER -> Obj(<<>>)
 
-ReqWith(loc, v, cf) ==
+ReqWith(loc0, v, cf) ==
+  LET loc == PLoc(loc0) IN
   IF loc \in ParamLocs
     THEN [vals |-> (loc \o ":p") :> [present |-> TRUE, vals |-> RawOf(v, cf)],
           ctype |-> IF loc = "formData" THEN "application/x-www-form-urlencoded" ELSE "application/json", val |-> v]
     ELSE [vals |-> <<>>, ctype |-> "application/json", body |-> WrapBody(loc, v), val |-> v]
-ReqWithout(loc) ==
+ReqWithout(loc0) ==
+  LET loc == PLoc(loc0) IN
   IF loc \in ParamLocs
     THEN [vals |-> <<>>, ctype |-> IF loc = "formData" THEN "application/x-www-form-urlencoded" ELSE "application/json"]
     ELSE [vals |-> <<>>, ctype |-> "application/json", body |-> EmptyBody(loc)]
